@@ -145,6 +145,16 @@ def check (inp out : List String) : Verdict :=
           !(b.length == 10 && decide (headerOk b (b.getD 4 0) (b.getD 5 0 * 256 + b.getD 6 0)))
       { agree := m == r, model := m, specFail := failing [("header_exact", specOk)] }
     | none => .bad "hdr hex"
+  | ["decshort", _k, size, stream], [res] =>
+    -- the transport ends before the declared payload is there: `recv_packet` needs `size` bytes for a value and
+    -- reads (or discards) that many before it can fail for another reason, so the outcome is always an error
+    match size.toNat?, hexBytes? stream with
+    | some size, some stream =>
+      if stream.length ≥ size then .bad "decshort: stream not short" else
+      { agree := res == "err", model := "err",
+        specFail := failing [("no_panic", res != "PANIC"), ("returns_on_short_stream", res != "HANG"),
+                             ("no_value_from_a_short_stream", res != "ok")] }
+    | _, _ => .bad "decshort tokens"
   | ["dec", k, size, stream], [consumed, res] =>
     match parseKind? k, size.toNat?, hexBytes? stream, consumed.toNat? with
     | some k, some size, some stream, some consumed =>
